@@ -18,13 +18,29 @@ OTHER_MAINS = set()
 
 def build_replayer(name="mu_replay"):
     """Extract the model (as regenerated for this tree) and compile replay/<name>.ml in its own directory.  Returns (exe, err)."""
+    import hashlib
     extract_v, exdir, vos = REPLAYERS[name]
     src = os.path.join(COQ, exdir)
-    dest = os.path.join(COQ, "_rp_" + name)
+    final = os.path.join(COQ, "_rp_" + name)
+    dest = final + ".build%d" % os.getpid()
     with Lock("coq"):
         b = coq_build(vos)
         if not b["ok"]:
             return None, "model does not build: " + b["log"][-800:]
+        # up to date?  (inputs: every .v of the development as it stands now, the replayer sources)
+        h = hashlib.sha256()
+        for d in ("Base", "Gen", "Model"):
+            for fn in sorted(os.listdir(os.path.join(COQ, d))):
+                if fn.endswith(".v"):
+                    h.update(open(os.path.join(COQ, d, fn), "rb").read())
+        for fn in (extract_v,):
+            h.update(open(os.path.join(COQ, fn), "rb").read())
+        for fn in (name + ".ml", "rcommon.ml"):
+            h.update(open(os.path.join(VERIF, "replay", fn), "rb").read())
+        fp = h.hexdigest()
+        stamp = os.path.join(final, "FINGERPRINT")
+        if os.path.exists(os.path.join(final, name)) and os.path.exists(stamp) and open(stamp).read() == fp:
+            return os.path.join(final, name), None
         if os.path.isdir(src):
             shutil.rmtree(src)
         os.makedirs(src)
@@ -35,17 +51,24 @@ def build_replayer(name="mu_replay"):
         if os.path.isdir(dest):
             shutil.rmtree(dest)
         shutil.copytree(src, dest)
-    shutil.copy(os.path.join(VERIF, "replay", name + ".ml"), dest)
-    shutil.copy(os.path.join(VERIF, "replay", "rcommon.ml"), dest)
-    mls = sorted(f for f in os.listdir(dest) if f.endswith(".ml") or f.endswith(".mli"))
-    rc, out, err = sh(["ocamlfind", "ocamldep", "-sort"] + mls, cwd=dest, timeout=120)
-    order = out.split()
-    if rc != 0 or not order:
-        return None, "ocamldep failed: " + (err or out)[-400:]
-    rc, out, err = sh(["ocamlfind", "ocamlopt", "-package", "str", "-linkpkg", "-w", "-a"] + order + ["-o", name], cwd=dest, timeout=300)
-    if rc != 0:
-        return None, "replayer does not compile: " + (err or out)[-800:]
-    return os.path.join(dest, name), None
+    try:
+        shutil.copy(os.path.join(VERIF, "replay", name + ".ml"), dest)
+        shutil.copy(os.path.join(VERIF, "replay", "rcommon.ml"), dest)
+        mls = sorted(f for f in os.listdir(dest) if f.endswith(".ml") or f.endswith(".mli"))
+        rc, out, err = sh(["ocamlfind", "ocamldep", "-sort"] + mls, cwd=dest, timeout=120)
+        order = out.split()
+        if rc != 0 or not order:
+            return None, "ocamldep failed: " + (err or out)[-400:]
+        rc, out, err = sh(["ocamlfind", "ocamlopt", "-package", "str", "-linkpkg", "-w", "-a"] + order + ["-o", name], cwd=dest, timeout=300)
+        if rc != 0:
+            return None, "replayer does not compile: " + (err or out)[-800:]
+        # publish atomically: a concurrent check may be executing the previous binary
+        os.makedirs(final, exist_ok=True)
+        os.replace(os.path.join(dest, name), os.path.join(final, name))
+        open(stamp, "w").write(fp)
+        return os.path.join(final, name), None
+    finally:
+        shutil.rmtree(dest, ignore_errors=True)
 
 
 def replay_one(replayer, exe, seed, env_extra, tdir):
@@ -67,7 +90,7 @@ def replay_one(replayer, exe, seed, env_extra, tdir):
 
 
 def replay_many(replayer, exe, seeds, env_extra=None):
-    tdir = os.path.join(WORK, "traces")
+    tdir = os.path.join(WORK, "traces", "%d_%s" % (os.getpid(), os.path.basename(exe)))
     os.makedirs(tdir, exist_ok=True)
     env_extra = env_extra or {}
     with cf.ThreadPoolExecutor(max_workers=NCPU) as ex:
